@@ -58,6 +58,13 @@ func instances(tier string, seed uint64) []inst {
 		if out[i].Name == "{?}" {
 			// an any-object that holds empty options, a null and a list with an empty option
 			out[i].Vars = append(out[i].Vars, vAnyObj("n", vNone(), "s", vSome(vInt(4)), "l", vList(vSome(vInt(1)), vNone())), vAnyObj("z", vNull(), "n", vNone()))
+			// any-objects that hold every kind of value a script can store: typed objects (also the
+			// nested objects of parsed JSON), any-objects, floats, lists of objects, options of
+			// objects, ranges and functions
+			out[i].Vars = append(out[i].Vars,
+				vAnyObj("o", vObj("a", vInt(1), "b", vStr("x")), "l", vList(objA(1), objA(2)), "t", vBool(true)),
+				vAnyObj("o", objA(1), "p", vAnyObj("q", vInt(2)), "e", vAnyObj(), "f", vFloat(1.5), "s", vSome(objA(3))),
+				vAnyObj("r", vRange(1, 3, false), "g", vFn(), "o", vObj("r", vRange(0, 2, false))))
 			// an any-object whose data keys are named like its own builtin members
 			out[i].Vars = append(out[i].Vars, collisionAnyObj())
 		}
@@ -524,7 +531,7 @@ type payload struct {
 	Member  string `json:"member,omitempty"`
 	Args    []rv   `json:"args,omitempty"`
 	Form    string `json:"form,omitempty"`   // let | stmt | bound | chain
-	Origin  string `json:"origin,omitempty"` // how the receiver is constructed: "" literal | json | cast
+	Origin  string `json:"origin,omitempty"` // how the receiver is constructed: "" literal | json | cast | loop | as | fresh
 	Print   bool   `json:"print,omitempty"`
 	// Twin: the program binds a second, untouched value `twin` built like the receiver and probes it last
 	Twin bool   `json:"twin,omitempty"`
@@ -540,6 +547,17 @@ type payload struct {
 func jsonable(v rv) bool { return jsonableIn(v, v.K != "anyobj") }
 
 func jsonableIn(v rv, typed bool) bool {
+	for _, x := range v.L {
+		if x.K == "anyobj" {
+			return false
+		}
+	}
+	for _, x := range v.M {
+		if x.K == "anyobj" {
+			// the nested objects of parsed JSON are typed objects
+			return false
+		}
+	}
 	switch v.K {
 	case "int", "bool":
 		return true
@@ -642,6 +660,10 @@ func originsOf(recv rv) []string {
 // "as" = the value went through a cast to its own type (the runtimes rebuild it element by element).
 // Together with parse_json these are the places where the cells of a compound value are created by
 // the value libraries and not by the literal.
+// "fresh" = the construction (the literal; for any-objects `new { ? }` plus the set calls) is the body
+// of a helper function, and the receiver, the twin and one more value made after the operation are
+// three products of that one construction site: every evaluation of a literal has to hand out a
+// value of its own, whatever was done to the products of earlier evaluations.
 func extraOriginsOf(in inst, recv rv) []string {
 	if typeText(in.T) == "" || !literalOK(recv) {
 		return nil
@@ -649,9 +671,13 @@ func extraOriginsOf(in inst, recv rv) []string {
 	for _, o := range originsOf(recv) {
 		if o == "" {
 			switch recv.K {
-			case "list", "obj", "opt":
+			case "list", "obj":
+				return []string{"loop", "as", "fresh"}
+			case "opt":
 				return []string{"loop", "as"}
-			case "anyobj", "range":
+			case "anyobj":
+				return []string{"loop", "fresh"}
+			case "range":
 				return []string{"loop"}
 			}
 		}
@@ -669,7 +695,7 @@ func bindValue(c *litCtx, name string, in inst, recv rv, origin string) (out []s
 		}
 		return fmt.Sprintf("%s_s%d", name, i)
 	}
-	literal := func(name string) []string {
+	literalIn := func(c *litCtx, name string) []string {
 		if recv.K == "anyobj" {
 			out := []string{"let " + name + ": { ? } = new { ? };"}
 			for i, k := range sortedKeys(recv.M) {
@@ -681,7 +707,21 @@ func bindValue(c *litCtx, name string, in inst, recv rv, origin string) (out []s
 		}
 		return []string{fmt.Sprintf("let %s: %s = %s;", name, tt, c.lit(recv, in.T, true))}
 	}
+	literal := func(name string) []string { return literalIn(c, name) }
 	switch origin {
+	case "fresh":
+		if len(c.fns) == 0 {
+			fc := &litCtx{}
+			stmts := literalIn(fc, "made")
+			fn := []string{"fn mk() -> " + tt + " {"}
+			for _, l := range append(fc.pre, stmts...) {
+				fn = append(fn, "    "+l)
+			}
+			c.fns = append(c.fns, strings.Join(append(fn, "    made", "}"), "\n"))
+			// one more product after the operation on the receiver
+			c.tail = append(c.tail, fmt.Sprintf("let late: %s = mk();", tt), "probe(late);")
+		}
+		return []string{fmt.Sprintf("let %s: %s = mk();", name, tt)}, 0
 	case "json":
 		return []string{fmt.Sprintf("let %s: %s = %s.parse_json() as %s;", name, tt, strLit(jsonText(recv)), tt)}, 0
 	case "cast":
@@ -724,11 +764,17 @@ func renderable(t ast.Type) bool {
 
 func assemble(c *litCtx, body []string) string {
 	var sb strings.Builder
+	for _, f := range c.fns {
+		sb.WriteString(f + "\n")
+	}
 	sb.WriteString("fn main() {\n")
 	for _, l := range c.pre {
 		sb.WriteString("    " + l + "\n")
 	}
 	for _, l := range body {
+		sb.WriteString("    " + l + "\n")
+	}
+	for _, l := range c.tail {
 		sb.WriteString("    " + l + "\n")
 	}
 	for k := 0; k < c.open; k++ {
